@@ -7,7 +7,9 @@ package checks
 //
 //  (1) BACKING: at every momentum the liabilities recorded in each contract's
 //      storage (stake entries, fusion entries, HTLCs, pillar collateral,
-//      sentinel collateral, QSR deposits, liquidity stake entries) are summed
+//      sentinel collateral, QSR deposits, liquidity stake entries, and for the
+//      bridge the wrap requests of tokens it does not own, net of the fee,
+//      minus the redeemed unwrap requests) are summed
 //      per (contract, token) and compared with the contract's balance at the
 //      same momentum; the per-beneficiary fused total must equal the sum of
 //      its fusion entries. The same inequality is evaluated a second time from
@@ -19,13 +21,22 @@ package checks
 //      the release of exactly the entry designated by the call, whose unlock
 //      condition (re-implemented here on chain time / height) holds at the
 //      momentum the receive acknowledges, paying the recorded amount to the
-//      entitled party, once.
+//      entitled party, once. For the bridge the entry is the unwrap request
+//      (transaction hash, log index) as signed by the TSS key the harness
+//      holds: a Redeem may pay (send, or mint for a token the bridge owns)
+//      only the signed amount of the signed token to the signed recipient, not
+//      before the first registration + the pair's redeem delay, not after the
+//      administrator revoked it, and once - whatever was registered again in
+//      between.
 //
 // The definition.* getters are used as decoders of storage values only.
 
 import (
 	"bytes"
+	"crypto/ecdsa"
 	"crypto/sha256"
+	"encoding/base64"
+	"encoding/hex"
 	"fmt"
 	"math/big"
 	"math/rand"
@@ -34,6 +45,7 @@ import (
 	"strings"
 	"time"
 
+	ethcrypto "github.com/ethereum/go-ethereum/crypto"
 	"golang.org/x/crypto/sha3"
 
 	g "github.com/zenon-network/go-zenon/chain/genesis/mock"
@@ -44,6 +56,7 @@ import (
 	"github.com/zenon-network/go-zenon/vm/abi"
 	"github.com/zenon-network/go-zenon/vm/constants"
 	"github.com/zenon-network/go-zenon/vm/embedded/definition"
+	"github.com/zenon-network/go-zenon/vm/embedded/implementation"
 	"github.com/zenon-network/go-zenon/wallet"
 
 	"verif/harness/fw"
@@ -56,7 +69,9 @@ func init() {
 		Level: "exploration",
 		Rule: "each case is a seeded history on a real producer node (all three sporks active) mixing deposits, cancellations, expiries, revocations, reward updates, collects and failed calls " +
 			"on stake, plasma, HTLC (ZNN, QSR and two issued tokens), pillar, sentinel and, in half of the short cases, liquidity (every 8th short case lists QSR itself as a liquidity token and lets the spork address call Fund) plus targeted withdrawal attempts at t-1 / t / t+1 around every lock by owner, stranger and beneficiary, repeated, " +
-			"with wrong / oversized preimage and proxy unlock default / denied / re-allowed; 'short' cases shrink the time constants like the repository tests, 'prod' cases keep production constants and jump chain time by skipping slots; " +
+			"with wrong / oversized preimage and proxy unlock default / denied / re-allowed; every 4th short case also sets up the bridge (administrator, guardians, a TSS key held by the harness, two networks with small PRNG-chosen chain ids, " +
+			"token pairs for ZNN, QSR and a token the bridge owns) and mixes in wraps, TSS-signed unwrap requests (log indices that collide with each other and with the chain ids), Redeem attempts at delay-1 / delay / delay+1 / delay+2 by recipient, stranger and twice, " +
+			"replays of already sent UnwrapToken calls with their original signature while the request is pending / redeemed / revoked (each followed by Redeem attempts one delay later), administrator revocations, and forged unwraps (one signed parameter changed, foreign key, empty / garbage signature); 'short' cases shrink the time constants like the repository tests, 'prod' cases keep production constants and jump chain time by skipping slots; " +
 			"distinct_nontrivial counts distinct (contract.method, status, caller role, timing class relative to the lock, outcome) tuples actually judged by the release model",
 		Cases:       c10Cases,
 		Run:         c10Run,
@@ -68,6 +83,8 @@ func init() {
 			"liquidity administrator UnlockLiquidityStakeEntries legitimately shortens the lock of entries of that token to the acknowledged time",
 			"who triggers a release is not restricted by the statement except for HTLC proxy unlock; only recipient, amount, time and once-only are judged",
 			"a refused release that the model would allow (entitled party, lock over) is only counted (entitled_release_refused), the statement demands no liveness",
+			"bridge: 'the signed request' is the exact parameter tuple (network class, chain id, transaction hash, log index, recipient, token address, amount) the harness signed with the TSS key it installed; a request is identified by (transaction hash, log index); its lock runs from the momentum its FIRST accepted UnwrapToken call acknowledges plus the pair's redeem delay, which the administrator never changes after setting the pair; a Mint call to the token contract (owned token) counts as the payout it requests; a second accepted registration is only counted (bridge_unwrap_registered_again) - what is judged is every payout: signed, to the signed recipient, signed amount and token, not before the delay, not after an administrator revocation, once",
+			"bridge liabilities: for a token the bridge does not own it owes what was wrapped net of the pair's fee (that is what exists on the foreign network) minus what was paid out by redeems the release model allowed (storage view: minus the requests flagged redeemed); the harness' TSS never signs more than that for such a token, like a foreign network on which only wrapped tokens can be burned",
 		},
 	})
 }
@@ -136,6 +153,7 @@ type c10Cfg struct {
 	RewardLimit int64
 	Liquidity   bool
 	LiqNative   bool // the administrator lists QSR itself as a liquidity token
+	Bridge      bool // the bridge is set up (administrator, guardians, TSS key, two networks, token pairs) and exercised
 	HeightPhase bool // prod: run enough momentums to reach fusion expiry
 	BuildSteps  int
 	Steps       int
@@ -174,6 +192,7 @@ func c10MakeCfg(caseID string, rng *rand.Rand) c10Cfg {
 	cfg.UpdateMin = []uint64{40, 90, 360}[rng.Intn(3)]
 	cfg.Liquidity = idx%2 == 0
 	cfg.LiqNative = idx%8 == 2
+	cfg.Bridge = idx%4 == 1
 	cfg.BuildSteps = 70
 	cfg.Steps = 330
 	cfg.MaxSpan = 40 * 3600
@@ -192,10 +211,13 @@ func (cfg c10Cfg) apply() {
 	constants.UpdateMinNumMomentums = cfg.UpdateMin
 	constants.RewardTimeLimit = cfg.RewardLimit
 	consensus.EpochDuration = cfg.EpochDur
-	if cfg.Liquidity {
+	if cfg.Liquidity || cfg.Bridge {
 		constants.InitialBridgeAdministrator = g.User5.Address
 		constants.MinAdministratorDelay = 20
 		constants.MinSoftDelay = 10
+	}
+	if cfg.Bridge {
+		constants.MinUnhaltDurationInMomentums = 5
 	}
 }
 
@@ -220,6 +242,9 @@ type c10Entry struct {
 	Preimage    []byte // workload knowledge only (never used by the oracle)
 	Paid        bool
 	Paid2       bool
+	PaidOK      bool // the first release paid the entitled party the recorded amount
+	Revoked     bool // unwrap: revoked by the bridge administrator
+	Unsigned    bool // unwrap: registered with parameters the TSS key never signed
 	Born        uint64
 	History     []string
 }
@@ -280,6 +305,8 @@ type c10World struct {
 	usedProd  map[types.Address]bool
 	protected map[string]bool // entries the workload never withdraws (they supply actors with plasma)
 	reserved  map[string]bool // entries only the planned probes touch
+
+	br *c10Bridge // nil unless cfg.Bridge
 }
 
 type c10Contract struct {
@@ -294,9 +321,10 @@ var c10Contracts = map[types.Address]c10Contract{
 	types.PillarContract:    {"pillar", &definition.ABIPillars},
 	types.SentinelContract:  {"sentinel", &definition.ABISentinel},
 	types.LiquidityContract: {"liquidity", &definition.ABILiquidity},
+	types.BridgeContract:    {"bridge", &definition.ABIBridge},
 }
 
-var c10Order = []types.Address{types.StakeContract, types.PlasmaContract, types.HtlcContract, types.PillarContract, types.SentinelContract, types.LiquidityContract}
+var c10Order = []types.Address{types.StakeContract, types.PlasmaContract, types.HtlcContract, types.PillarContract, types.SentinelContract, types.LiquidityContract, types.BridgeContract}
 
 func c10TokenClass(z types.ZenonTokenStandard) string {
 	switch z {
@@ -337,6 +365,7 @@ func (w *c10World) violation(sig string, detail map[string]interface{}, e *c10En
 			"kind": e.Kind, "id": e.ID, "owner": w.name(e.Owner), "beneficiary": w.name(e.Beneficiary),
 			"amount": e.Amount.String(), "token": e.Token.String(), "exp_time": e.ExpTime, "exp_height": e.ExpHeight,
 			"reg_time": e.RegTime, "paid": e.Paid, "born_height": e.Born, "history": e.History,
+			"revoked": e.Revoked, "unsigned": e.Unsigned,
 		}
 	}
 	if e != nil && len(e.ID) >= 8 {
@@ -344,9 +373,14 @@ func (w *c10World) violation(sig string, detail map[string]interface{}, e *c10En
 		if e.Kind == "fusion" {
 			short = e.Hash.String()[:8]
 		}
+		short2 := short
+		if e.Kind == "unwrap" {
+			// bridge calls are logged as Method(<tx hash prefix>/<log index>[,...])
+			short, short2 = short+e.ID[strings.Index(e.ID, "/"):]+")", short+e.ID[strings.Index(e.ID, "/"):]+","
+		}
 		var calls []string
 		for _, l := range w.log {
-			if strings.Contains(l, short) {
+			if strings.Contains(l, short) || strings.Contains(l, short2) {
 				calls = append(calls, l)
 			}
 		}
@@ -500,6 +534,10 @@ func (w *c10World) role(e *c10Entry, caller types.Address) string {
 		return "no-entry"
 	}
 	switch {
+	case e.Kind == "unwrap" && caller == e.Owner:
+		return "recipient"
+	case e.Kind == "unwrap" && caller == g.User5.Address:
+		return "admin"
 	case caller == e.Owner:
 		return "owner"
 	case e.Kind == "fusion" && caller == e.Beneficiary:
@@ -527,6 +565,11 @@ func (w *c10World) judge(R *nom.AccountBlock) {
 	for _, d := range R.DescendantBlocks {
 		if d.Amount != nil && d.Amount.Sign() > 0 {
 			rc.Value = append(rc.Value, d)
+		} else if R.Address == types.BridgeContract {
+			// the bridge pays out tokens it owns by asking the token contract to mint: judged like a value send
+			if m := c10BrMintRequest(d); m != nil {
+				rc.Value = append(rc.Value, m)
+			}
 		}
 	}
 	w.c.Eval(1)
@@ -829,6 +872,131 @@ func (w *c10World) judge(R *nom.AccountBlock) {
 			w.treasury[d.TokenStandard].Add(w.treasury[d.TokenStandard], d.Amount)
 			w.treasuryBy[d.TokenStandard] = rc.Method
 		}
+	case "bridge.WrapToken":
+		p := new(definition.WrapTokenParam)
+		if ct.ABI.UnpackMethod(p, rc.Method, S.Data) != nil {
+			return
+		}
+		pair := w.brPairByZts(p.NetworkClass, p.ChainId, S.TokenStandard)
+		burn, _ := definition.ABIToken.MethodById(definition.ABIToken.PackMethodPanic(definition.BurnMethodName))
+		burned := false
+		for i, d := range rc.Value {
+			// a token the bridge owns is burned on wrapping (at most what the call carried); nothing else may leave
+			if i == 0 && pair != nil && pair.Owned && d.ToAddress == types.TokenContract && d.TokenStandard == S.TokenStandard &&
+				d.Amount.Cmp(S.Amount) <= 0 && len(d.Data) >= 4 && bytes.Equal(d.Data[:4], burn.Id()) {
+				burned = true
+				continue
+			}
+			w.relViolation(rc, "unexpected-value-send", nil, map[string]interface{}{"send_index": i})
+		}
+		// what the bridge owes for a wrap is what appears on the foreign network: the amount minus the pair's fee
+		net := new(big.Int).Set(S.Amount)
+		if pair != nil {
+			fee := new(big.Int).Mul(S.Amount, big.NewInt(int64(pair.Fee)))
+			net.Sub(net, fee.Div(fee, big.NewInt(10000)))
+		} else {
+			w.c.Count("bridge_wrap_accepted_for_a_pair_the_harness_never_set", 1)
+		}
+		e := &c10Entry{Kind: "wrap", ID: S.Hash.String(), Hash: S.Hash, Owner: S.Address, Amount: net, Token: S.TokenStandard, Born: rc.AckH}
+		e.History = append(e.History, fmt.Sprintf("wrapped h=%d gross=%s net=%s", rc.AckH, S.Amount, net))
+		out := "wrapped"
+		if pair != nil && pair.Owned {
+			e.Paid = true // burned: the bridge keeps nothing but the fee and owes nothing it would have to hold
+			out = "wrapped-owned"
+			if !burned {
+				out = "wrapped-owned-not-burned"
+			}
+		} else if w.br != nil {
+			w.br.wrapped.add(S.TokenStandard, net)
+		}
+		w.addEntry(e)
+		w.c.Count("bridge_wraps_ok", 1)
+		w.cover(rc, "owner", "-", out)
+	case "bridge.UnwrapToken":
+		w.noValue(rc)
+		p := new(definition.UnwrapTokenParam)
+		if ct.ABI.UnpackMethod(p, rc.Method, S.Data) != nil {
+			return
+		}
+		id := c10BrKey(p.TransactionHash, p.LogIndex)
+		if old := w.entries["unwrap|"+id]; old != nil {
+			// the statement forbids a second RELEASE, not a second registration: remembered, judged when something is paid.
+			// The lock keeps running from the first registration.
+			old.History = append(old.History, fmt.Sprintf("registered AGAIN by %s at h=%d (paid=%v revoked=%v)", w.name(rc.Caller), rc.AckH, old.Paid, old.Revoked))
+			w.c.Count("bridge_unwrap_registered_again", 1)
+			w.cover(rc, w.role(old, rc.Caller), c10HeightClass(rc.AckH, old.ExpHeight), "registered-again")
+			return
+		}
+		pair := w.brPairByAddr(p.NetworkClass, p.ChainId, p.TokenAddress)
+		e := &c10Entry{Kind: "unwrap", ID: id, Hash: p.TransactionHash, Owner: p.ToAddress, Amount: new(big.Int).Set(p.Amount), Born: rc.AckH, ExpHeight: rc.AckH}
+		if pair != nil {
+			e.Token = pair.Zts
+			e.ExpHeight = rc.AckH + uint64(pair.Delay)
+		}
+		e.Unsigned = w.br == nil || !w.br.tuples[c10BrTuple(p)]
+		e.History = append(e.History, fmt.Sprintf("registered h=%d redeemable h=%d recipient=%s amount=%s class=%d chain=%d log=%d signed_by_tss=%v", rc.AckH, e.ExpHeight, w.name(p.ToAddress), p.Amount, p.NetworkClass, p.ChainId, p.LogIndex, !e.Unsigned))
+		w.addEntry(e)
+		w.c.Count("bridge_unwraps_registered", 1)
+		out := "registered"
+		if e.Unsigned {
+			out = "registered-unsigned"
+		}
+		if p.LogIndex == p.ChainId {
+			w.c.Count("bridge_unwraps_registered_with_log_index_equal_chain_id", 1)
+		}
+		w.cover(rc, w.role(e, rc.Caller), "-", out)
+		w.onCreated(e)
+	case "bridge.Redeem":
+		p := new(definition.RedeemParam)
+		if ct.ABI.UnpackMethod(p, rc.Method, S.Data) != nil {
+			return
+		}
+		e := w.entries["unwrap|"+c10BrKey(p.TransactionHash, p.LogIndex)]
+		timing := "-"
+		if e != nil {
+			timing = c10HeightClass(rc.AckH, e.ExpHeight)
+			if e.Revoked {
+				timing += "/revoked"
+			}
+		}
+		for _, d := range rc.Value {
+			if string(d.Data) == c10BrMintMark {
+				w.c.Count("bridge_redeems_minted", 1)
+			} else {
+				w.c.Count("bridge_redeems_sent", 1)
+			}
+		}
+		w.release(rc, e, rc.Value, func(d *nom.AccountBlock) string {
+			switch {
+			case e.Unsigned:
+				return "unsigned-request"
+			case e.Revoked:
+				return "after-revoke"
+			case rc.AckH < e.ExpHeight:
+				return "before-unlock"
+			}
+			return ""
+		}, timing)
+	case "bridge.RevokeUnwrapRequest":
+		w.noValue(rc)
+		p := new(definition.RevokeUnwrapParam)
+		if ct.ABI.UnpackMethod(p, rc.Method, S.Data) != nil {
+			return
+		}
+		e := w.entries["unwrap|"+c10BrKey(p.TransactionHash, p.LogIndex)]
+		timing := "-"
+		if e != nil {
+			timing = c10HeightClass(rc.AckH, e.ExpHeight)
+			if e.Paid {
+				timing += "/released"
+			}
+			if rc.Caller == g.User5.Address {
+				e.Revoked = true
+				e.History = append(e.History, fmt.Sprintf("revoked by the administrator at h=%d", rc.AckH))
+				w.c.Count("bridge_revokes_ok", 1)
+			}
+		}
+		w.cover(rc, w.role(e, rc.Caller), timing, "revoked")
 	default:
 		w.noValue(rc)
 		w.cover(rc, "any", "-", "no-value")
@@ -878,12 +1046,25 @@ func (w *c10World) coverFailed(rc *c10Recv) {
 		}
 	case "sentinel.Revoke":
 		e = w.entries["sentinel|"+rc.Caller.String()]
+	case "bridge.Redeem", "bridge.RevokeUnwrapRequest":
+		p := new(definition.RedeemParam) // both calls carry (transaction hash, log index)
+		if ct.ABI.UnpackMethod(p, rc.Method, rc.S.Data) == nil {
+			e = w.entries["unwrap|"+c10BrKey(p.TransactionHash, p.LogIndex)]
+		}
+	case "bridge.UnwrapToken":
+		p := new(definition.UnwrapTokenParam)
+		if ct.ABI.UnpackMethod(p, rc.Method, rc.S.Data) == nil {
+			e = w.entries["unwrap|"+c10BrKey(p.TransactionHash, p.LogIndex)]
+			if e != nil {
+				w.c.Count("bridge_unwrap_replays_refused", 1)
+			}
+		}
 	}
 	if e != nil {
 		switch e.Kind {
 		case "stake", "liq", "htlc":
 			timing = c10TimeClass(rc.AckT, e.ExpTime)
-		case "fusion":
+		case "fusion", "unwrap":
 			timing = c10HeightClass(rc.AckH, e.ExpHeight)
 		case "pillar":
 			_, timing = c10Window(e.RegTime, rc.AckT, w.cfg.PilLock, w.cfg.PilRevoke)
@@ -893,13 +1074,18 @@ func (w *c10World) coverFailed(rc *c10Recv) {
 		if e.Paid {
 			timing += "/released"
 		}
+		if e.Revoked {
+			timing += "/revoked"
+		}
 		if e.Kind == "htlc" && w.hasProx[e.Beneficiary] && !w.proxy[e.Beneficiary] {
 			timing += "/proxy-denied"
 		}
 	}
-	if e != nil && !e.Paid && rc.Caller == e.Owner && rc.Method != "Unlock" {
+	if e != nil && !e.Paid && rc.Caller == e.Owner && rc.Method != "Unlock" && (e.Kind != "unwrap" || rc.Method == "Redeem") {
 		due := false
 		switch e.Kind {
+		case "unwrap":
+			due = rc.AckH >= e.ExpHeight && !e.Revoked && !e.Unsigned
 		case "stake", "liq", "htlc":
 			due = rc.AckT >= e.ExpTime
 		case "fusion":
@@ -952,6 +1138,9 @@ func (w *c10World) releaseTo(rc *c10Recv, e *c10Entry, sends []*nom.AccountBlock
 			w.relViolation(rc, why, e, map[string]interface{}{"send_index": i, "timing": timing})
 		}
 		if e != nil {
+			if (why == "" || why == "before-unlock") && !e.Paid {
+				e.PaidOK = true // the right party got the right amount for the first time: the liability is discharged (even if too early)
+			}
 			e.Paid = true
 			e.History = append(e.History, fmt.Sprintf("released by %s.%s from %s at h=%d t=+%d to %s (%s)", rc.CName, rc.Method, w.name(rc.Caller), rc.AckH, rc.AckT-1000000000, w.name(d.ToAddress), why))
 		}
@@ -1317,6 +1506,29 @@ func (w *c10World) backing(h uint64) {
 		parts["liquidity_entries"] = fmt.Sprint(len(ll))
 		w.checkBacking(h, types.LiquidityContract, st, sums, "storage", parts)
 	}
+	// bridge: for a token it does not own the bridge holds what was wrapped (net of the fee, which is what exists on the
+	// foreign network) until it has been paid out again by a redeemed unwrap request
+	if w.br != nil {
+		st := ms.GetAccountStore(types.BridgeContract)
+		sums := c10Sums{}
+		wl, err1 := definition.GetWrapTokenRequests(st.Storage())
+		ul, err2 := definition.GetUnwrapTokenRequests(st.Storage())
+		if err1 == nil && err2 == nil {
+			for _, r := range wl {
+				if !w.br.owned[r.TokenStandard] {
+					sums.add(r.TokenStandard, new(big.Int).Sub(r.Amount, r.Fee))
+				}
+			}
+			for _, r := range ul {
+				if !w.br.owned[r.TokenStandard] && r.Redeemed > 0 {
+					sums.add(r.TokenStandard, new(big.Int).Neg(r.Amount))
+				}
+			}
+			parts["bridge_wrap_requests"] = fmt.Sprint(len(wl))
+			parts["bridge_unwrap_requests"] = fmt.Sprint(len(ul))
+			w.checkBacking(h, types.BridgeContract, st, sums, "storage", parts)
+		}
+	}
 
 	// the same inequality from the harness' own model entries
 	model := map[types.Address]c10Sums{}
@@ -1338,6 +1550,19 @@ func (w *c10World) backing(h uint64) {
 	for _, ca := range []types.Address{types.PillarContract, types.SentinelContract} {
 		for _, v := range w.qsr[ca] {
 			model[ca].add(types.QsrTokenStandard, v)
+		}
+	}
+	if w.br != nil {
+		for _, e := range w.list["wrap"] {
+			if !e.Paid && !w.br.owned[e.Token] {
+				model[types.BridgeContract].add(e.Token, e.Amount)
+			}
+		}
+		for _, e := range w.list["unwrap"] {
+			// only a release the model allowed reduces what is owed: a second or unentitled payout takes other wrappers' funds
+			if e.PaidOK && !w.br.owned[e.Token] {
+				model[types.BridgeContract].add(e.Token, new(big.Int).Neg(e.Amount))
+			}
 		}
 	}
 	for _, a := range c10Order {
@@ -1556,6 +1781,34 @@ func (w *c10World) wrongPreimage(e *c10Entry) []byte {
 
 // onCreated is workload code: it plans the targeted withdrawal attempts around the lock of a new entry.
 func (w *c10World) onCreated(e *c10Entry) {
+	if e.Kind == "unwrap" {
+		if w.br == nil {
+			return
+		}
+		// Redeem attempts around registration height + redeem delay: anybody may trigger, only the recipient may be paid
+		r := w.br.rng
+		to := w.byAddr[e.Owner]
+		tx, li := e.Hash, uint32(0)
+		fmt.Sscanf(e.ID[strings.Index(e.ID, "/")+1:], "%d", &li)
+		for i, h := range []uint64{e.ExpHeight - 1, e.ExpHeight, e.ExpHeight + 1, e.ExpHeight + 2} {
+			tag := []string{"t-1", "t", "t+1", "t+2"}[i]
+			if r.Intn(4) == 0 {
+				continue
+			}
+			w.atHeight(h, "unwrap "+tag, func() {
+				if r.Intn(5) < 2 {
+					w.brRedeem(w.brActor(), tx, li, "bridge.redeem stranger "+tag)
+				}
+				if to != nil && r.Intn(10) < 6 {
+					w.brRedeem(to, tx, li, "bridge.redeem recipient "+tag)
+					if r.Intn(5) < 2 {
+						w.brRedeem(to, tx, li, "bridge.redeem recipient-repeat "+tag)
+					}
+				}
+			})
+		}
+		return
+	}
 	owner := w.byAddr[e.Owner]
 	if owner == nil || w.protected[e.ID] {
 		return
@@ -2243,6 +2496,638 @@ func (w *c10World) randomAction(build bool) {
 }
 
 // ---------------------------------------------------------------------------
+// bridge: the harness plays the administrator, the TSS signer (its own secp256k1 key), wrappers, relayers and attackers.
+// Oracle knowledge kept here: the token pairs the administrator sets (never changed afterwards) and the exact parameter
+// tuples the TSS key signed. Everything else (signatures, call data, who sends what when) is workload.
+
+const c10BrMintMark = "mint-request"
+
+type c10BrPair struct {
+	Class, Chain uint32
+	Zts          types.ZenonTokenStandard
+	Addr         string // lower-case token address on the foreign network
+	Owned        bool
+	Delay        uint32
+	Min          *big.Int
+	Fee          uint32
+	ActiveAt     uint64 // workload: height from which the pair should be usable (0 = not yet)
+}
+
+type c10BrSigned struct {
+	P    definition.UnwrapTokenParam // with the TSS signature
+	Pair *c10BrPair
+	Key  string
+	Sent int
+}
+
+type c10BrStep struct {
+	Gap uint64
+	Fn  func() bool
+}
+
+type c10BrChain struct {
+	steps []c10BrStep
+	next  uint64
+	i     int
+}
+
+type c10Bridge struct {
+	rng      *rand.Rand
+	tss      *ecdsa.PrivateKey
+	rogue    *ecdsa.PrivateKey
+	pub      string
+	nets     [2][2]uint32 // (class, chain id)
+	pairs    []*c10BrPair
+	ownedZts types.ZenonTokenStandard
+	owned    map[types.ZenonTokenStandard]bool
+	chains   []*c10BrChain
+	ready    bool
+	failed   bool
+
+	signed      []*c10BrSigned
+	byKey       map[string]*c10BrSigned
+	tuples      map[string]bool // oracle: what the TSS key signed
+	signedTotal c10Sums         // per token the bridge does not own
+	wrapped     c10Sums         // net amount of the accepted wraps, per token the bridge does not own (from judged receives)
+}
+
+func c10BrKey(tx types.Hash, logIndex uint32) string { return fmt.Sprintf("%s/%d", tx, logIndex) }
+
+func c10BrTuple(p *definition.UnwrapTokenParam) string {
+	return fmt.Sprintf("%d|%d|%s|%d|%s|%s|%s", p.NetworkClass, p.ChainId, p.TransactionHash, p.LogIndex, p.ToAddress, strings.ToLower(p.TokenAddress), p.Amount)
+}
+
+// c10BrMintRequest turns a zero-amount Mint call to the token contract into a pseudo send (receiver, token, amount).
+func c10BrMintRequest(d *nom.AccountBlock) *nom.AccountBlock {
+	if d.ToAddress != types.TokenContract || len(d.Data) < 4 {
+		return nil
+	}
+	m, err := definition.ABIToken.MethodById(d.Data)
+	if err != nil || m.Name != definition.MintMethodName {
+		return nil
+	}
+	p := new(definition.MintParam)
+	if definition.ABIToken.UnpackMethod(p, m.Name, d.Data) != nil || p.Amount == nil {
+		return nil
+	}
+	return &nom.AccountBlock{BlockType: d.BlockType, Address: d.Address, ToAddress: p.ReceiveAddress, Amount: new(big.Int).Set(p.Amount),
+		TokenStandard: p.TokenStandard, Data: []byte(c10BrMintMark), Height: d.Height, Hash: d.Hash}
+}
+
+func (w *c10World) brPairByZts(class, chain uint32, z types.ZenonTokenStandard) *c10BrPair {
+	if w.br == nil {
+		return nil
+	}
+	for _, p := range w.br.pairs {
+		if p.Class == class && p.Chain == chain && p.Zts == z {
+			return p
+		}
+	}
+	return nil
+}
+
+func (w *c10World) brPairByAddr(class, chain uint32, addr string) *c10BrPair {
+	if w.br == nil {
+		return nil
+	}
+	addr = strings.ToLower(addr)
+	for _, p := range w.br.pairs {
+		if p.Class == class && p.Chain == chain && p.Addr == addr {
+			return p
+		}
+	}
+	return nil
+}
+
+func c10BrNewKey(r *rand.Rand) *ecdsa.PrivateKey {
+	for {
+		b := make([]byte, 32)
+		r.Read(b)
+		if k, err := ethcrypto.ToECDSA(b); err == nil {
+			return k
+		}
+	}
+}
+
+func c10BrSign(key *ecdsa.PrivateKey, p *definition.UnwrapTokenParam) string {
+	msg, err := implementation.GetUnwrapTokenRequestMessage(p)
+	if err != nil {
+		return ""
+	}
+	sig, err := ethcrypto.Sign(msg, key)
+	if err != nil {
+		return ""
+	}
+	return base64.StdEncoding.EncodeToString(sig)
+}
+
+func (w *c10World) brHexAddr() string {
+	b := make([]byte, 20)
+	w.br.rng.Read(b)
+	return "0x" + hex.EncodeToString(b)
+}
+
+// bridgeInit issues the token the bridge will own, hands it over, and lays out the administrator's setup calls.
+func (w *c10World) bridgeInit() {
+	r := rand.New(rand.NewSource(fw.SeedFor(w.c.Seed, "c10-bridge/"+w.id)))
+	br := &c10Bridge{rng: r, owned: map[types.ZenonTokenStandard]bool{}, byKey: map[string]*c10BrSigned{}, tuples: map[string]bool{},
+		signedTotal: c10Sums{}, wrapped: c10Sums{}}
+	br.tss, br.rogue = c10BrNewKey(r), c10BrNewKey(r)
+	br.pub = base64.StdEncoding.EncodeToString(ethcrypto.CompressPubkey(&br.tss.PublicKey))
+	w.br = br
+	u1, admin := w.byAddr[g.User1.Address], w.byAddr[g.User5.Address]
+
+	if !w.must(w.send(u1, types.TokenContract, types.ZnnTokenStandard, big.NewInt(1*c10Zexp), definition.ABIToken.PackMethodPanic(definition.IssueMethodName,
+		"c10-bridge-token", "CBRT", "", big.NewInt(1000000*c10Zexp), big.NewInt(4000000*c10Zexp), uint8(8), true, true, false), "IssueToken", ""), "issue bridge token") {
+		return
+	}
+	w.produce(3)
+	w.receiveInbox(8)
+	w.produce(1)
+	bm, _ := w.n.Chain.GetFrontierAccountStore(u1.Addr).GetBalanceMap()
+	var found []types.ZenonTokenStandard
+	for z := range bm {
+		if z != types.ZnnTokenStandard && z != types.QsrTokenStandard && z != w.tokens[0] && z != w.tokens[1] && bm[z].Sign() > 0 {
+			found = append(found, z)
+		}
+	}
+	if len(found) != 1 {
+		w.c.Inconclusive(fmt.Sprintf("expected 1 new token for the bridge, found %d", len(found)))
+		w.dead = true
+		return
+	}
+	br.ownedZts = found[0]
+	br.owned[br.ownedZts] = true
+	for _, kp := range []*wallet.KeyPair{g.User2, g.User3, g.User6, g.User7, g.User8} {
+		w.must(w.send(u1, kp.Address, br.ownedZts, big.NewInt(100000*c10Zexp), nil, "transfer bridge token", ""), "spread bridge token")
+	}
+	w.must(w.send(u1, types.TokenContract, types.ZnnTokenStandard, nil, definition.ABIToken.PackMethodPanic(definition.UpdateTokenMethodName, br.ownedZts, types.BridgeContract, true, true), "UpdateToken(owner=bridge)", ""), "hand the token to the bridge")
+	w.produce(2)
+	w.receiveInbox(8)
+	w.produce(1)
+
+	// two foreign networks with hostile-small chain ids (they collide with log indices), classes NoM / EVM
+	ids := []uint32{1, 2, 3, 5, 56, 123, 31337}
+	br.nets[0] = [2]uint32{definition.EvmClass, ids[r.Intn(len(ids))]}
+	br.nets[1] = [2]uint32{[]uint32{definition.NoMClass, definition.EvmClass}[r.Intn(2)], ids[r.Intn(len(ids))]}
+	if br.nets[1] == br.nets[0] {
+		br.nets[1][1]++
+	}
+	delays := []uint32{2, 3, 5, 8, 12}
+	mins := []int64{1, 100, c10Zexp}
+	fees := []uint32{0, 15, 100, 300}
+	mk := func(net int, z types.ZenonTokenStandard, owned bool) *c10BrPair {
+		return &c10BrPair{Class: br.nets[net][0], Chain: br.nets[net][1], Zts: z, Addr: w.brHexAddr(), Owned: owned,
+			Delay: delays[r.Intn(len(delays))], Min: big.NewInt(mins[r.Intn(len(mins))]), Fee: fees[r.Intn(len(fees))]}
+	}
+	br.pairs = []*c10BrPair{mk(0, types.ZnnTokenStandard, false), mk(0, br.ownedZts, true), mk(1, types.QsrTokenStandard, false)}
+	if r.Intn(2) == 0 {
+		br.pairs = append(br.pairs, mk(1, types.ZnnTokenStandard, false))
+	} else {
+		br.pairs = append(br.pairs, mk(1, br.ownedZts, true))
+	}
+
+	call := func(desc string, data []byte) bool {
+		return w.send(admin, types.BridgeContract, types.ZnnTokenStandard, nil, data, desc, "") != nil
+	}
+	guardians := []types.Address{g.User1.Address, g.User2.Address, g.User3.Address, g.User4.Address, g.User6.Address}
+	nominate := func() bool {
+		return call("NominateGuardians", definition.ABIBridge.PackMethodPanic(definition.NominateGuardiansMethodName, guardians))
+	}
+	tss := func() bool {
+		return call("ChangeTssECDSAPubKey", definition.ABIBridge.PackMethodPanic(definition.ChangeTssECDSAPubKeyMethodName, br.pub, "", ""))
+	}
+	// the administrator's challenges: guardians (administrator delay), then the TSS key (soft delay) ...
+	sec := &c10BrChain{steps: []c10BrStep{{24, nominate}, {3, nominate}, {13, tss}, {3, tss}, {0, func() bool {
+		info, err := definition.GetBridgeInfoVariable(w.n.Chain.GetFrontierAccountStore(types.BridgeContract).Storage())
+		if err == nil && info.CompressedTssECDSAPubKey == br.pub {
+			br.ready = true
+			w.c.Count("bridge_ready", 1)
+		} else {
+			br.failed = true
+			w.c.Count("bridge_setup_failed", 1)
+		}
+		return true
+	}}}}
+	// ... meanwhile orchestrator, networks and, one after the other (one challenge per method), the token pairs
+	cfgc := &c10BrChain{steps: []c10BrStep{{2, func() bool {
+		ok := call("SetOrchestratorInfo", definition.ABIBridge.PackMethodPanic(definition.SetOrchestratorInfoMethodName, uint64(6), uint32(3), uint32(15), uint32(10)))
+		for i, nt := range br.nets {
+			ok = call("SetNetwork", definition.ABIBridge.PackMethodPanic(definition.SetNetworkMethodName, nt[0], nt[1], fmt.Sprintf("c10-net-%d", i), w.brHexAddr(), "{}")) && ok
+		}
+		return ok
+	}}}}
+	for _, p := range br.pairs {
+		p := p
+		set := func() bool {
+			return call(fmt.Sprintf("SetTokenPair(class=%d,chain=%d,%s,owned=%v,delay=%d)", p.Class, p.Chain, c10TokenClass(p.Zts), p.Owned, p.Delay),
+				definition.ABIBridge.PackMethodPanic(definition.SetTokenPairMethod, p.Class, p.Chain, p.Zts, p.Addr, true, true, p.Owned, p.Min, p.Fee, p.Delay, "{}"))
+		}
+		cfgc.steps = append(cfgc.steps, c10BrStep{13, set}, c10BrStep{2, func() bool {
+			if !set() {
+				return false
+			}
+			h, _ := w.frontier()
+			p.ActiveAt = h + 2
+			return true
+		}})
+	}
+	br.chains = []*c10BrChain{sec, cfgc}
+}
+
+// bridgeTick advances the administrator's setup: a step is sent once the gap after the previous one has passed.
+func (w *c10World) bridgeTick() {
+	h, _ := w.frontier()
+	for _, ch := range w.br.chains {
+		for ch.i < len(ch.steps) && h >= ch.next {
+			st := ch.steps[ch.i]
+			if !st.Fn() {
+				break // rejected (plasma): tried again at the next momentum
+			}
+			ch.i++
+			ch.next = h + st.Gap
+			if st.Gap > 0 {
+				break
+			}
+		}
+	}
+}
+
+func (w *c10World) brActivePairs(owned int) []*c10BrPair { // owned: -1 any, 0 not owned, 1 owned
+	h, _ := w.frontier()
+	var l []*c10BrPair
+	for _, p := range w.br.pairs {
+		if p.ActiveAt != 0 && h >= p.ActiveAt && (owned < 0 || (owned == 1) == p.Owned) {
+			l = append(l, p)
+		}
+	}
+	return l
+}
+
+func (w *c10World) brActor() *c10Actor { return w.actors[w.br.rng.Intn(len(w.actors))] }
+
+func (w *c10World) brWrap() {
+	r := w.br.rng
+	a := w.brActor()
+	p := w.br.pairs[r.Intn(len(w.br.pairs))]
+	if act := w.brActivePairs(-1); len(act) > 0 && r.Intn(10) != 0 {
+		p = act[r.Intn(len(act))]
+	}
+	z, class, chain := p.Zts, p.Class, p.Chain
+	var amt *big.Int
+	switch k := r.Intn(20); {
+	case k == 0: // below the pair's minimum (refused unless the minimum is 1)
+		amt = new(big.Int).Sub(p.Min, big.NewInt(1))
+		if amt.Sign() <= 0 {
+			amt = big.NewInt(1)
+		}
+	case k < 5:
+		amt = new(big.Int).Add(p.Min, big.NewInt(r.Int63n(1000)))
+	default:
+		amt = new(big.Int).Mul(big.NewInt(1+r.Int63n(60)), big.NewInt(c10Zexp))
+		if r.Intn(3) == 0 {
+			amt.Add(amt, big.NewInt(r.Int63n(c10Zexp)))
+		}
+	}
+	switch r.Intn(16) {
+	case 0:
+		chain += 1000 // no such network: refund
+	case 1:
+		z = w.tokens[r.Intn(len(w.tokens))] // no pair for this token: refund
+	}
+	if w.bal(a.Addr, z).Cmp(amt) < 0 {
+		return
+	}
+	to := w.brHexAddr()
+	if r.Intn(12) == 0 {
+		to = strings.ToUpper(to[2:]) // no 0x prefix, upper case
+	}
+	w.send(a, types.BridgeContract, z, amt, definition.ABIBridge.PackMethodPanic(definition.WrapTokenMethodName, class, chain, to),
+		fmt.Sprintf("WrapToken(class=%d,chain=%d)", class, chain), "bridge.wrap")
+}
+
+func (w *c10World) brLogIndex(p *c10BrPair) uint32 {
+	r := w.br.rng
+	switch r.Intn(10) {
+	case 0, 1:
+		return p.Chain // equal to the chain id of its own network
+	case 2:
+		return w.br.nets[r.Intn(2)][1]
+	case 3:
+		return r.Uint32()
+	case 4:
+		return ^uint32(0)
+	}
+	return uint32(r.Intn(5))
+}
+
+// brSendUnwrap sends an UnwrapToken call; followUp plans Redeem attempts after the pair's delay has passed again.
+func (w *c10World) brSendUnwrap(a *c10Actor, p *definition.UnwrapTokenParam, pair *c10BrPair, hint string, followUp bool) {
+	data, err := definition.ABIBridge.PackMethod(definition.UnwrapTokenMethodName, p.NetworkClass, p.ChainId, p.TransactionHash, p.LogIndex, p.ToAddress, p.TokenAddress, p.Amount, p.Signature)
+	if err != nil {
+		return
+	}
+	b := w.send(a, types.BridgeContract, types.ZnnTokenStandard, nil, data,
+		fmt.Sprintf("UnwrapToken(%s/%d,class=%d,chain=%d,to=%s,amount=%s)", p.TransactionHash.String()[:8], p.LogIndex, p.NetworkClass, p.ChainId, w.name(p.ToAddress), p.Amount), hint)
+	if b == nil || !followUp {
+		return
+	}
+	r := w.br.rng
+	h, _ := w.frontier()
+	delay := uint64(3)
+	if pair != nil {
+		delay = uint64(pair.Delay)
+	}
+	tx, li, to := p.TransactionHash, p.LogIndex, w.byAddr[p.ToAddress]
+	for _, off := range []uint64{1, 2, 4} {
+		if r.Intn(2) == 0 {
+			continue
+		}
+		w.atHeight(h+delay+off, "bridge follow-up", func() {
+			a := w.brActor()
+			if to != nil && r.Intn(2) == 0 {
+				a = to
+			}
+			w.brRedeem(a, tx, li, "bridge.redeem after-"+hint)
+		})
+	}
+}
+
+func (w *c10World) brRedeem(a *c10Actor, tx types.Hash, logIndex uint32, hint string) {
+	w.send(a, types.BridgeContract, types.ZnnTokenStandard, nil, definition.ABIBridge.PackMethodPanic(definition.RedeemUnwrapMethodName, tx, logIndex),
+		fmt.Sprintf("Redeem(%s/%d)", tx.String()[:8], logIndex), hint)
+}
+
+// brUnwrapNew: the TSS signs a new foreign event. For a token the bridge does not own it never signs more than was
+// wrapped (net) and not yet signed away, like a foreign network on which only wrapped tokens can be burned.
+func (w *c10World) brUnwrapNew() {
+	br, r := w.br, w.br.rng
+	act := w.brActivePairs(-1)
+	if len(act) == 0 {
+		return
+	}
+	pair := act[r.Intn(len(act))]
+	var amt *big.Int
+	if pair.Owned {
+		amt = big.NewInt(1 + r.Int63n(500*c10Zexp))
+	} else {
+		avail := new(big.Int)
+		if v := br.wrapped[pair.Zts]; v != nil {
+			avail.Set(v)
+		}
+		if v := br.signedTotal[pair.Zts]; v != nil {
+			avail.Sub(avail, v)
+		}
+		if avail.Sign() <= 0 {
+			return
+		}
+		amt = new(big.Int).Rand(r, avail)
+		amt.Add(amt, big.NewInt(1))
+		if r.Intn(3) != 0 { // mostly a part, so that several requests compete for the same funds
+			amt.Rsh(amt, 1).Add(amt, big.NewInt(1))
+		}
+	}
+	to := w.brActor().Addr
+	if r.Intn(12) == 0 {
+		b := make([]byte, types.AddressSize)
+		r.Read(b)
+		b[0] = types.UserAddrByte
+		to, _ = types.BytesToAddress(b)
+	}
+	var tx types.Hash
+	if len(br.signed) > 0 && r.Intn(10) < 3 {
+		tx = br.signed[r.Intn(len(br.signed))].P.TransactionHash // another event of the same foreign transaction
+	} else {
+		r.Read(tx[:])
+	}
+	li := w.brLogIndex(pair)
+	key := c10BrKey(tx, li)
+	if br.byKey[key] != nil {
+		return // one signature per foreign event
+	}
+	s := &c10BrSigned{Pair: pair, Key: key, P: definition.UnwrapTokenParam{NetworkClass: pair.Class, ChainId: pair.Chain, TransactionHash: tx, LogIndex: li,
+		ToAddress: to, TokenAddress: pair.Addr, Amount: amt}}
+	s.P.Signature = c10BrSign(br.tss, &s.P)
+	if s.P.Signature == "" {
+		return
+	}
+	br.signed = append(br.signed, s)
+	br.byKey[key] = s
+	br.tuples[c10BrTuple(&s.P)] = true
+	if !pair.Owned {
+		br.signedTotal.add(pair.Zts, amt)
+	}
+	w.c.Count("bridge_requests_signed", 1)
+	if li == pair.Chain {
+		w.c.SetAdd("bridge_log_index_vs_chain_id", "equal")
+	} else {
+		w.c.SetAdd("bridge_log_index_vs_chain_id", "different")
+	}
+	if r.Intn(7) == 0 {
+		return // held back: somebody relays it later
+	}
+	s.Sent++
+	w.brSendUnwrap(w.brActor(), &s.P, pair, "bridge.unwrap new", false)
+}
+
+func (w *c10World) brState(s *c10BrSigned) string {
+	e := w.entries["unwrap|"+s.Key]
+	switch {
+	case e == nil:
+		return "unregistered"
+	case e.Revoked && e.Paid:
+		return "redeemed+revoked"
+	case e.Revoked:
+		return "revoked"
+	case e.Paid:
+		return "redeemed"
+	}
+	return "pending"
+}
+
+func (w *c10World) brPickSigned(prefer ...string) *c10BrSigned {
+	br, r := w.br, w.br.rng
+	if len(br.signed) == 0 {
+		return nil
+	}
+	if len(prefer) > 0 && r.Intn(10) < 7 {
+		var l []*c10BrSigned
+		for _, s := range br.signed {
+			st := w.brState(s)
+			for _, p := range prefer {
+				if st == p {
+					l = append(l, s)
+				}
+			}
+		}
+		if len(l) > 0 {
+			return l[r.Intn(len(l))]
+		}
+	}
+	return br.signed[r.Intn(len(br.signed))]
+}
+
+// brReplay sends an UnwrapToken call that was signed (and mostly sent) before, unchanged: the signature is public.
+func (w *c10World) brReplay() {
+	r := w.br.rng
+	s := w.brPickSigned("redeemed", "revoked", "redeemed+revoked")
+	if s == nil {
+		return
+	}
+	st := w.brState(s)
+	p := s.P
+	if r.Intn(7) == 0 {
+		p.TokenAddress = "0x" + strings.ToUpper(p.TokenAddress[2:]) // same address, same signed message
+	}
+	s.Sent++
+	w.c.Count("bridge_replays_sent", 1)
+	w.c.SetAdd("bridge_replay_of", st)
+	w.brSendUnwrap(w.brActor(), &p, s.Pair, "bridge.unwrap replay-of-"+st, true)
+}
+
+// brForge sends UnwrapToken calls the TSS never signed: a signed request with one parameter changed, or a wrong signature.
+func (w *c10World) brForge() {
+	br, r := w.br, w.br.rng
+	s := w.brPickSigned()
+	if s == nil {
+		return
+	}
+	p := s.P
+	p.Amount = new(big.Int).Set(s.P.Amount)
+	attacker := w.brActor()
+	kind := ""
+	pair := s.Pair
+	switch r.Intn(11) {
+	case 0:
+		kind, p.ToAddress = "recipient", attacker.Addr
+		if p.ToAddress == s.P.ToAddress {
+			return
+		}
+	case 1:
+		kind = "amount"
+		p.Amount.Mul(p.Amount, big.NewInt(2))
+	case 2:
+		kind = "amount"
+		p.Amount.Add(p.Amount, big.NewInt(1))
+	case 3:
+		kind = "log-index"
+		p.LogIndex++
+		if r.Intn(2) == 0 && p.LogIndex-1 != p.ChainId {
+			p.LogIndex = p.ChainId
+		}
+	case 4:
+		kind = "network"
+		o := br.nets[0]
+		if o[0] == p.NetworkClass && o[1] == p.ChainId {
+			o = br.nets[1]
+		}
+		p.NetworkClass, p.ChainId = o[0], o[1]
+	case 5:
+		kind = "token"
+		o := br.pairs[r.Intn(len(br.pairs))]
+		if o == s.Pair || o.Class != p.NetworkClass || o.Chain != p.ChainId {
+			return
+		}
+		p.TokenAddress, pair = o.Addr, o
+	case 6:
+		kind = "tx-hash"
+		p.TransactionHash[r.Intn(32)] ^= byte(1 + r.Intn(255))
+	case 7:
+		kind = "rogue-key"
+		r.Read(p.TransactionHash[:])
+		p.ToAddress = attacker.Addr
+		p.Signature = c10BrSign(br.rogue, &p)
+	case 8:
+		kind = "empty-signature"
+		r.Read(p.TransactionHash[:])
+		p.Signature = ""
+	case 9:
+		kind = "garbage-signature"
+		r.Read(p.TransactionHash[:])
+		b := make([]byte, 65)
+		r.Read(b)
+		b[64] = byte(r.Intn(2))
+		p.Signature = base64.StdEncoding.EncodeToString(b)
+	case 10:
+		kind = "signed-for-other-class"
+		r.Read(p.TransactionHash[:])
+		q := p
+		q.NetworkClass = 3 - p.NetworkClass
+		p.Signature = c10BrSign(br.tss, &q)
+	}
+	if br.tuples[c10BrTuple(&p)] {
+		return // happens to be something the TSS did sign
+	}
+	w.c.Count("bridge_forged_unwraps_sent", 1)
+	w.c.SetAdd("bridge_forged", kind)
+	w.brSendUnwrap(attacker, &p, pair, "bridge.unwrap forged-"+kind, true)
+}
+
+func (w *c10World) brRedeemRandom() {
+	r := w.br.rng
+	s := w.brPickSigned("pending", "pending", "redeemed")
+	if s == nil {
+		return
+	}
+	tx, li := s.P.TransactionHash, s.P.LogIndex
+	if r.Intn(15) == 0 {
+		li++ // mostly no such request
+	}
+	a := w.brActor()
+	if to := w.byAddr[s.P.ToAddress]; to != nil && r.Intn(5) < 2 {
+		a = to
+	}
+	w.brRedeem(a, tx, li, "bridge.redeem random")
+	if r.Intn(4) == 0 {
+		w.brRedeem(w.brActor(), tx, li, "bridge.redeem random-repeat")
+	}
+}
+
+func (w *c10World) brRevoke() {
+	r := w.br.rng
+	s := w.brPickSigned("pending", "redeemed")
+	if s == nil {
+		return
+	}
+	a := w.byAddr[g.User5.Address]
+	hint := "bridge.revoke admin"
+	if r.Intn(4) == 0 {
+		a, hint = w.brActor(), "bridge.revoke stranger"
+	}
+	tx, li := s.P.TransactionHash, s.P.LogIndex
+	w.send(a, types.BridgeContract, types.ZnnTokenStandard, nil, definition.ABIBridge.PackMethodPanic(definition.RevokeUnwrapRequestMethodName, tx, li),
+		fmt.Sprintf("RevokeUnwrapRequest(%s/%d)", tx.String()[:8], li), hint)
+	// afterwards somebody relays the signed call again and tries to redeem
+	h, _ := w.frontier()
+	if r.Intn(3) != 0 {
+		w.atHeight(h+2+uint64(r.Intn(3)), "bridge replay after revoke", func() {
+			s.Sent++
+			w.c.Count("bridge_replays_sent", 1)
+			st := w.brState(s)
+			w.c.SetAdd("bridge_replay_of", st)
+			w.brSendUnwrap(w.brActor(), &s.P, s.Pair, "bridge.unwrap replay-of-"+st, true)
+		})
+	}
+}
+
+func (w *c10World) brAction() {
+	switch k := w.br.rng.Intn(100); {
+	case k < 22:
+		w.brWrap()
+	case k < 46:
+		w.brUnwrapNew()
+	case k < 64:
+		w.brReplay()
+	case k < 76:
+		w.brForge()
+	case k < 91:
+		w.brRedeemRandom()
+	default:
+		w.brRevoke()
+	}
+}
+
+// ---------------------------------------------------------------------------
 // setup and main loop
 
 func (w *c10World) must(b *nom.AccountBlock, what string) bool {
@@ -2433,7 +3318,7 @@ func c10Run(c *fw.C, caseID string) {
 		preimages: map[types.Hash][]byte{}, usedProd: map[types.Address]bool{}, protected: map[string]bool{}, reserved: map[string]bool{}, sigSeen: map[string]int{}, treasury: map[types.ZenonTokenStandard]*big.Int{}, treasuryBy: map[types.ZenonTokenStandard]string{}}
 	w.cfg.apply()
 	c.Note("not_modelled", []string{
-		"bridge (wrap / unwrap / redeem): sends ignored, not exercised",
+		"bridge administration beyond the initial setup (Halt / Unhalt / Emergency, ChangeAdministrator, TSS key rotation, RemoveNetwork, RemoveTokenPair or a changed redeem delay, UpdateWrapRequest): not exercised",
 		"accelerator (project and phase payouts, donations): sends ignored",
 		"swap RetrieveAssets, token contract mints/burns, spork contract: sends ignored",
 		"liquidity treasury operations (Fund, BurnZnn, additional-reward burn in Update, Donate): sends ignored",
@@ -2466,6 +3351,9 @@ func c10Run(c *fw.C, caseID string) {
 	w.fund()
 	if w.cfg.Liquidity && !w.dead {
 		w.liquiditySetup()
+	}
+	if w.cfg.Bridge && !w.dead {
+		w.bridgeInit()
 	}
 	// probes around the revoke windows of one genesis pillar
 	if e := w.entries["pillar|"+g.Pillar3Name]; e != nil && !w.dead {
@@ -2545,13 +3433,21 @@ func c10Run(c *fw.C, caseID string) {
 		for i := 0; i < k; i++ {
 			w.randomAction(build)
 		}
+		if w.br != nil && !drain {
+			w.bridgeTick()
+			if w.br.ready {
+				for i, kb := 0, w.br.rng.Intn(3); i < kb; i++ {
+					w.brAction()
+				}
+			}
+		}
 		w.produceAt(target)
 	}
 	if !w.dead {
 		w.produce(2) // confirm the last receives
 	}
 	c.Count("momentums", int(w.scanned))
-	for _, kind := range []string{"stake", "fusion", "htlc", "pillar", "sentinel", "liq"} {
+	for _, kind := range []string{"stake", "fusion", "htlc", "pillar", "sentinel", "liq", "wrap", "unwrap"} {
 		c.Count("entries_"+kind, len(w.list[kind]))
 		paid := 0
 		for _, e := range w.list[kind] {
